@@ -245,8 +245,10 @@ CURLcode curl_easy_perform(CURL *c) {
 CURLM *curl_multi_init(void) { return calloc(1, sizeof(SimMulti)); }
 CURLMcode curl_multi_setopt(CURLM *m, CURLMoption o, ...) { (void)m; (void)o; return CURLM_OK; }
 CURLMcode curl_multi_cleanup(CURLM *m) { free(m); return CURLM_OK; }
+static int sim_multi_add_fail, sim_multi_perform_fail;     /* http_fault: the next n calls fail */
 CURLMcode curl_multi_add_handle(CURLM *mh, CURL *c) {
 	SimMulti *m = mh; SimEasy *e = c;
+	if (sim_multi_add_fail > 0) { sim_multi_add_fail--; kx_event(0, "http_fault_fired what=add"); return CURLM_OUT_OF_MEMORY; }
 	if (m->n >= 1024) return CURLM_OUT_OF_MEMORY;
 	m->e[m->n++] = e; e->multi = m; e->has_completion = e->done = e->reported = 0; e->result = CURLE_OK; e->httpcode = 0;
 	easy_announce(e, "http_async", 0, NULL);
@@ -255,6 +257,7 @@ CURLMcode curl_multi_add_handle(CURLM *mh, CURL *c) {
 CURLMcode curl_multi_remove_handle(CURLM *mh, CURL *c) { SimMulti *m = mh; int i; for (i = 0; i < m->n; i++) if (m->e[i] == c) { memmove(&m->e[i], &m->e[i + 1], sizeof(m->e[0]) * (size_t)(m->n - i - 1)); m->n--; ((SimEasy *)c)->multi = NULL; return CURLM_OK; } return CURLM_OK; }
 CURLMcode curl_multi_perform(CURLM *mh, int *running) {
 	SimMulti *m = mh; int i, r = 0;
+	if (sim_multi_perform_fail > 0) { sim_multi_perform_fail--; kx_event(0, "http_fault_fired what=perform"); if (running) *running = 0; return CURLM_INTERNAL_ERROR; }
 	for (i = 0; i < m->n; i++) { SimEasy *e = m->e[i]; if (e->has_completion && !e->done) { easy_deliver(e); e->done = 1; e->order = ++completion_order; } if (!e->done) r++; }
 	if (running) *running = r; return CURLM_OK;
 }
@@ -346,6 +349,9 @@ int kx_net_dispatch(char **tok, int ntok, int *handled) {
 		if (kx_kvl("established", 0) && c->state == CS_CONNECTING) c->state = CS_ESTABLISHED;
 		if (kx_kvl("refuse", 0) && c->state == CS_CONNECTING) c->state = CS_REFUSED;
 		kx_out(" state=%d unread=%zu sent=%zu", c->state, c->inlen, c->sent_total); return 0; }
+	if (is("http_fault")) { /* http_fault [add=n] [perform=n]: the next n calls of curl_multi_add_handle / curl_multi_perform report an error */
+		sim_multi_add_fail = (int)kx_kvl("add", sim_multi_add_fail); sim_multi_perform_fail = (int)kx_kvl("perform", sim_multi_perform_fail);
+		kx_out(" add=%d perform=%d", sim_multi_add_fail, sim_multi_perform_fail); return 0; }
 	if (is("http_complete")) { /* http_complete <easy id> <httpcode> <curlcode> <hexbody|-> [chunks] */
 		int id = atoi(tok[1]), i; char spec[1 << 20]; size_t o = 0;
 		for (i = 2; i < ntok; i++) o += (size_t)snprintf(spec + o, sizeof spec - o, "%s ", tok[i]);
